@@ -9,9 +9,15 @@
    program runs through it; they say something about the real stages only because the real
    traces are accepted (the tie: harness/props/c19.py, tag 1901/1902).  The content ids that
    operations write (`Create p t cid`, `OpenW p cid`) are PART OF THE TRACE / chosen by the
-   program from what it observed: the theorems show that no observation the acceptor permits
-   can differ between the two file systems, so a program has nothing to compute different
-   content FROM; that the real stages compute their output from their inputs only (data flow
+   program from what it observed: the theorems show that no observation OF THE MODEL that the
+   acceptor permits can differ between the two file systems, so a program has nothing to compute
+   different content FROM.  The model's observations are: the content an OpenR reads, the names a
+   ListDir returns, and the KIND (absent / file / directory) a Stat is told.  A real stat() of a
+   declared output that an earlier run left also returns st_size / st_mtime / st_ino of the stale
+   file: the model does not expose them (the mapper does not use them today: its looks at the
+   outputs are exists() / is_file() / open(); the tie compares the outputs across histories), so
+   "nothing observable differs" is a statement about kinds, not about everything a system call
+   returns.  That the real stages compute their output from their inputs only (data flow
    inside the Python process) is not a statement about file operations and is established by
    the tie, which digests the outputs of runs across histories (stale files planted, success
    after success/failure, concurrent pairs) against an undisturbed run. *)
@@ -72,13 +78,18 @@ Print Assumptions c19_preexisting_output_never_deleted.
    declared output ends up the same (or, if the run never wrote it, is what it was in each);
    and every other path outside the run's own scratch names — every stale entry — is in each
    file system exactly what it was.  The reason is observe_sim: each observation the acceptor
-   permits (code 12 refuses the others) has the same answer in both.
+   permits (code 12 refuses the others) has the same answer in both -- where a Stat answers
+   with the KIND only (see the head of this file: size and times of a stale output, which a real
+   stat returns too, are not modelled).
 
    The second hypothesis cannot be dropped: whether a declared OUTPUT exists is something the
    acceptor lets a run see (run_mapping does look: the probe above), and a program may
-   branch on it (ex_existence_hypothesis_needed).  What the real stages do with the answer is
-   checked by the tie only: histories `success-after-success` / `log-file-of-earlier-run`
-   run with the outputs present and compare against a run with them absent. *)
+   branch on it (ex_existence_hypothesis_needed).  For the shape run_mapping has -- a probe
+   wrapper around a body that does not use the answer -- the comparison "outputs absent" against
+   "outputs left by an earlier run" is c19_stale_independence_up_to_probes below; beyond that
+   shape, what the real stages do with the answer is checked by the tie: histories
+   `success-after-success` / `log-file-of-earlier-run` run with the outputs present and compare
+   against a run with them absent. *)
 Theorem c19_stale_independence_program : forall c pg fuel f1 f2 g1 t h,
   outside_scratch c = true -> mem (c_query c) (c_outputs c) = false ->
   (forall p, In p (c_inputs c) -> lookup f1 p = lookup f2 p) ->
